@@ -6,6 +6,7 @@ import (
 	"go/constant"
 	"go/token"
 	"go/types"
+	"regexp"
 	"sort"
 	"strings"
 
@@ -19,7 +20,8 @@ import (
 // The text a function writes to its writer is followed statement by statement (branches joined, loop bodies read
 // twice so that the end of one iteration meets the start of the next). After a piece that leaves the line *open* —
 // for assembler text: it does not end in "\n"; for C: its last line holds a `//` comment and does not end in "\n" —
-// the next piece must begin with a newline (or be a Fprintln); in C, where a comment may be continued by more
+// the next piece must not begin a new line of its own (indentation, a directive, a label) unless it starts with a
+// newline (or is a Fprintln); a piece that continues the open line (an operand written separately) is fine; in C, where a comment may be continued by more
 // comment text, the next piece must not hold code (`;`, `{`, `}`) before its first newline. A call into a function of the package that is handed
 // the writer counts as a piece that begins with text when that function's first write does, and leaves the line
 // open when the function can return with it open.
@@ -150,6 +152,11 @@ func (lw *lineWalker) call(call *ast.CallExpr, st lineState, sum *lineSummary, v
 				return st
 			}
 			startsText := !strings.HasPrefix(f, "\n")
+			if lw.mode == lineAsm && startsText {
+				// a piece may continue the line another piece began (an operand written separately); what must not
+				// land on an open line is the start of a new one: indentation, a directive or a label
+				startsText = f[0] == ' ' || f[0] == '\t' || f[0] == '.' || f[0] == '#' || regexp.MustCompile(`^[A-Za-z_$][\w.$]*:`).MatchString(f)
+			}
 			if lw.mode == lineC && startsText {
 				// more comment text may follow a comment; what must not is code
 				head := f
